@@ -280,8 +280,10 @@ class TranscriptAnnotationModel():
         cdna.id = self.transcript.transcript_id
         cdna.name = self.transcript.transcript_id
         cdna.description = self.transcript.transcript_id + '|' \
-            + self.transcript.gene_id + '|' \
-            + self.transcript.protein_id
+            + self.transcript.gene_id
+        protein_id = self.transcript.protein_id or self.protein_id
+        if protein_id:
+            cdna.description += '|' + protein_id
         return cdna
 
     def get_transcript_index(self, genomic_index:int) -> int:
